@@ -193,7 +193,7 @@ func genCfg(r *verifsim.Run, focus string) cCfg {
 	c.W, c.H = r.Range(4, 10), r.Range(4, 8)
 	c.Fps = r.OneOf(1, 2, 3, 5, 9, 9)
 	c.Serial = r.OneOf(0, 1, 12345, r.Draw(1<<31))
-	c.Firmware = []string{"", "1.2.3", "3.3.26", randName(r, 40)}[r.Draw(4)]
+	c.Firmware = []string{"", "1.2.3", "3.3.26", randName(r, 40), randName(r, 250), "Lepton 3.5 radiometric build 2019-11-05 (gpp 3.3.26 dsp 3.3.26) shuttered, factory calibrated unit"}[r.Draw(6)]
 	c.DeviceID = r.OneOf(0, 1, 77, r.Draw(1<<20))
 	c.DeviceName = randName(r, 255)
 	c.Preview = r.Draw(3)
@@ -263,6 +263,10 @@ func genCfg(r *verifsim.Run, focus string) cCfg {
 	}
 	c.WinStart, c.WinStop = "12:00", "12:00" // no window
 	switch focus {
+	case "C17":
+		if r.Chance(1, 3) {
+			c.Fps = r.OneOf(30, 60) // 21 frames take well under a second: requests close together in time are still non-overlapping
+		}
 	case "C04":
 		// the bubble clock starts at 2000-01-01 00:00:00 UTC: windows whose boundaries the run walks across,
 		// in both directions (incl. one spanning midnight), and the real statfs refusal
@@ -379,8 +383,8 @@ func genConn(r *verifsim.Run, focus string, cfg cCfg, firstID int) *cConn {
 	if r.Chance(1, 2) {
 		pClear = r.OneOf(10, 30)
 	}
-	if r.Chance(1, 3) {
-		pTest = r.OneOf(10, 30)
+	if r.Chance(1, 3) || focus == "C17" && r.Chance(1, 2) {
+		pTest = r.OneOf(10, 30, 200)
 	}
 	sinceT := 1000
 	for len(cn.Ev) < n {
@@ -400,6 +404,9 @@ func genConn(r *verifsim.Run, focus string, cfg cCfg, firstID int) *cConn {
 			}
 			if pClear > 0 && r.Chance(pClear, 1000) {
 				cn.Ev = append(cn.Ev, cEvent{Kind: 'C'})
+				for r.Chance(1, 3) { // the camera may fail to restart: markers back to back, no frame in between
+					cn.Ev = append(cn.Ev, cEvent{Kind: 'C'})
+				}
 			}
 			if pTest > 0 && sinceT > 24 && r.Chance(pTest, 1000) {
 				cn.Ev = append(cn.Ev, cEvent{Kind: 'T'})
@@ -1520,11 +1527,15 @@ func uniformValue(f *cptvframe.Frame) (int, string) {
 
 func execSched(r *verifsim.Run, sc *cScenario, opt cSchedOpts) *cSchedResult {
 	res := &cSchedResult{cResult: cResult{Decoded: map[string]*cDecoded{}}}
-	root, err := os.MkdirTemp(scratchRoot(), "vs")
-	if err != nil {
-		panic(err)
+	root := os.Getenv("VERIF_FIXED_ROOT") // child of the real-kill validation: the parent inspects this directory
+	if root == "" {
+		var err error
+		root, err = os.MkdirTemp(scratchRoot(), "vs")
+		if err != nil {
+			panic(err)
+		}
+		defer os.RemoveAll(root)
 	}
-	defer os.RemoveAll(root)
 	confDir := filepath.Join(root, "etc")
 	outDir := filepath.Join(root, "out")
 	os.MkdirAll(confDir, 0755)
